@@ -5,6 +5,7 @@ package props
 import (
 	"bytes"
 	"fmt"
+	"math"
 	"math/rand/v2"
 	"os"
 	"os/exec"
@@ -31,14 +32,14 @@ func init() {
 		ID: "C14",
 		Meta: func(tier string) fw.Meta {
 			return fw.Meta{
-				Flavours: []string{"plain", "cover"},
+				Flavours: []string{"plain", "cover", "386"},
 				Blocks:   16,
 				Procs:    16,
 				Rule: "case = (Left, Right, n, file info). Lines come from an adversarial alphabet ('', lines starting with - + < > @ space \\\\, '---', '+++', 'diff ', '***', '***************', change-command and hunk-header look-alikes, lines ending in CR, non-ASCII); n in 0..4; empty files, single-line and empty sides. Exhaustive over alphabet 2 x length <= 5 x n in 0..3; random pairs up to 40 lines. " +
-					"For New and for New.AddContext(n).Unify(): Normal/Unified/Context text is produced; the text is parsed by independent reference parsers that count lines by the headers (published format rules) and must describe the original changes at the original ranges; strict reference appliers (no fuzz, no offset, left AND right line numbers checked) must turn Left into Right; mdiff.Read/ReadUnified/ReadGitPatch must return the reference parse (chunk for chunk; one chunk per change command for normal), re-format to identical bytes, and preserve file names and default-format timestamps; the same changes moved down to line numbers around every power of ten up to 10^18 and around 2^31, 2^32, 2^53, 2^62 (really built and applied up to a million lines in front, parsed and read back beyond); parsed patches are kept and verified again after later reads; Diff.Format must equal the format function's output also right after a Format call into a writer that failed. " +
+					"For New and for New.AddContext(n).Unify(): Normal/Unified/Context text is produced; the text is parsed by independent reference parsers that count lines by the headers (published format rules) and must describe the original changes at the original ranges; strict reference appliers (no fuzz, no offset, left AND right line numbers checked) must turn Left into Right; mdiff.Read/ReadUnified/ReadGitPatch must return the reference parse (chunk for chunk; one chunk per change command for normal), re-format to identical bytes, and preserve file names and default-format timestamps; the same changes moved down to line numbers around every power of ten up to 10^18 and around 2^31, 2^32, 2^53, 2^62 (really built and applied up to a million lines in front, parsed and read back beyond); every ordered pair of 19 marker-like contents ('-- old', '++ new', '- ', '@@ -1 +1 @@', ...) as last deleted / first inserted line of one change, also through the git wrapper; headers written with non-default time formats (names must survive); parsed patches are kept and verified again after later reads; Diff.Format must equal the format function's output also right after a Format call into a writer that failed. " +
 					"A sample of cases (CR-free alphabet) is also applied with GNU patch (-n/-u/-c) and, for a smaller sample, GNU diff output (normal and -U n) is fed to the readers. " +
 					"A unified read failure is attributed to known finding F5 iff the text has an omitted count and the parse equals the reference parse with End=Start on exactly the omitted-count sides. distinct = hash(Left, Right, n); non-trivial = the diff has a hunk with an empty or single-line side",
-				Required:     []string{"cases", "unified_roundtrips", "normal_roundtrips", "git_roundtrips", "ref_apply_normal", "ref_apply_unified", "ref_apply_context", "empty_range_hunks", "single_line_side_hunks", "fileinfo_roundtrips", "gnu_patch_runs", "gnu_diff_runs", "kept_patches_rechecked", "format_after_failed_write", "large_line_number_cases"},
+				Required:     []string{"cases", "unified_roundtrips", "normal_roundtrips", "git_roundtrips", "ref_apply_normal", "ref_apply_unified", "ref_apply_context", "empty_range_hunks", "single_line_side_hunks", "fileinfo_roundtrips", "gnu_patch_runs", "gnu_diff_runs", "kept_patches_rechecked", "format_after_failed_write", "large_line_number_cases", "custom_time_format_headers", "marker_like_content_cases"},
 				Exhaustive:   true,
 				Assumptions:  []string{"reference parsers/appliers written from the GNU diffutils manual's format descriptions", "GNU patch 2.7.x and GNU diff 3.x as installed in this image", "an omitted count means 1 (unified), an empty unified range s,0 sits after line s"},
 				CoverPkgs:    []string{"github.com/creachadair/mds/mdiff"},
@@ -677,9 +678,12 @@ func (k *c14case) checkUnified(cs []*mdiff.Chunk, fi *mdiff.FileInfo) (text stri
 	case "ok":
 		var b2 bytes.Buffer
 		p.Format(&b2, mdiff.Unified)
-		if b2.String() != text {
+		if b2.String() != text && !c14customTimes(fi) {
 			k.fail("re-formatting the parsed unified patch gives %q, not the original text", b2.String())
 			return text
+		}
+		if c14customTimes(fi) {
+			k.c.Add("custom_time_format_headers", 1)
 		}
 	case "f5":
 		k.c.Known("F5", k.data, "%s: ReadUnified reads an omitted count as a zero-length range: got %s", k.what, chunksString(p.Chunks))
@@ -704,7 +708,7 @@ func (k *c14case) checkUnified(cs []*mdiff.Chunk, fi *mdiff.FileInfo) (text stri
 			k.fail("file names read back as %q / %q, written %q / %q", p.FileInfo.Left, p.FileInfo.Right, wl, wr)
 			return text
 		}
-		if !p.FileInfo.LeftTime.Equal(fi.LeftTime) || !p.FileInfo.RightTime.Equal(fi.RightTime) {
+		if !c14customTimes(fi) && (!p.FileInfo.LeftTime.Equal(fi.LeftTime) || !p.FileInfo.RightTime.Equal(fi.RightTime)) {
 			k.fail("timestamps read back as %v / %v, written %v / %v", p.FileInfo.LeftTime, p.FileInfo.RightTime, fi.LeftTime, fi.RightTime)
 			return text
 		}
@@ -809,7 +813,17 @@ func c14fileInfo(r *rand.Rand) *mdiff.FileInfo {
 		return time.Date(1970+r.IntN(80), time.Month(1+r.IntN(12)), 1+r.IntN(28), r.IntN(24), r.IntN(60), r.IntN(60), us*1000, zone)
 	}
 	fi.LeftTime, fi.RightTime = mk(), mk()
+	if r.IntN(4) == 0 {
+		// a time format other than the default one: the timestamps then need not
+		// survive reading back, the file names must
+		fi.TimeFormat = []string{time.ANSIC, time.RFC3339, time.Kitchen, "2006-01-02", time.RFC1123Z, "Jan _2 15:04"}[r.IntN(6)]
+	}
 	return fi
+}
+
+// c14customTimes reports whether fi writes timestamps in a non-default format.
+func c14customTimes(fi *mdiff.FileInfo) bool {
+	return fi != nil && fi.TimeFormat != "" && fi.TimeFormat != mdiff.TimeFormat && (!fi.LeftTime.IsZero() || !fi.RightTime.IsZero())
 }
 
 // c14one runs all in-process checks on one (left, right, n) and returns the
@@ -869,6 +883,74 @@ func c14one(c *fw.Ctx, left, right []string, n int, fi *mdiff.FileInfo) (texts m
 		c.FailKind("panic", base, "panic: %v\n%s", pv, stack)
 	}
 	return texts, nontrivial
+}
+
+// c14markers: contents that look like the formats' own markers, on both sides
+// of one change and next to each other: a deleted line whose content starts
+// with "-- " is written "--- ...", an inserted "++ ..." line "+++ ...", and so
+// on. Every ordered pair of such contents as (last deleted, first inserted)
+// line, in replacements, pure deletions and pure insertions, with 0..2 lines
+// of context.
+var c14markerLines = []string{"-- old", "++ new", "- ", "+ ", "-- ", "++ ", "-- a/x\t2020-01-01 00:00:00 +0000", "++ b/x", "@@ -1 +1 @@", "@ -1,2 +1,2 @@", "\\ No newline at end of file", "diff --git a/x b/x", "** 1,2 ****", "-- 1,2 ----", "1c1", "> x", "< x", "--", "*************"}
+
+func c14markers(c *fw.Ctx, block, nblocks int) {
+	n := 0
+	for ai, a := range c14markerLines {
+		for bi, b := range c14markerLines {
+			if (ai*len(c14markerLines)+bi)%nblocks != block {
+				continue
+			}
+			for shape := 0; shape < 4; shape++ {
+				var left, right []string
+				switch shape {
+				case 0: // the two-line replacement: [first, a] -> [b, second]
+					left, right = []string{"top", "first", a, "mid", "bottom"}, []string{"top", b, "second", "mid", "bottom"}
+				case 1: // single lines
+					left, right = []string{"top", a, "bottom"}, []string{"top", b, "bottom"}
+				case 2: // deletion of a run ending in a, insertion elsewhere starting with b
+					left, right = []string{"x", "y", a, "k1", "k2", "k3", "k4"}, []string{"k1", "k2", "k3", b, "z", "k4"}
+				default: // at the very start and end of the files
+					left, right = []string{a, "k", "k2"}, []string{"k", "k2", b}
+				}
+				for ctx := 0; ctx <= 2; ctx++ {
+					fi := &mdiff.FileInfo{Left: "l.txt", Right: "r.txt"}
+					if (ai+bi+ctx)%3 == 0 {
+						fi = nil
+					}
+					c14one(c, left, right, ctx, fi)
+					n++
+				}
+			}
+			// the same contents through the git wrapper
+			var buf bytes.Buffer
+			d := mdiff.New([]string{"top", "first", a, "mid", "bottom"}, []string{"top", b, "second", "mid", "bottom"}).AddContext(1).Unify()
+			mdiff.Unified(&buf, d.Chunks, &mdiff.FileInfo{Left: "a/f.txt", Right: "b/f.txt"})
+			text := "diff --git a/f.txt b/f.txt\nindex 83db48f..bf269f4 100644\n" + buf.String()
+			if ps, err := mdiff.ReadGitPatch(strings.NewReader(text)); err != nil || len(ps) != 1 {
+				c.Fail(map[string]any{"git_patch_text": fw.Q(text)}, "ReadGitPatch on one wrapped file: %d patches, err=%v", len(ps), err)
+			} else {
+				var b2 bytes.Buffer
+				ps[0].Format(&b2, mdiff.Unified)
+				lines := splitLines(buf.String())
+				_, _, _, hunks, _, perr := parseUnifiedRef(lines)
+				if perr == nil {
+					switch cl := classifyUnifiedRead(ps[0].Chunks, hunks); cl {
+					case "ok":
+						if b2.String() != buf.String() {
+							c.Fail(map[string]any{"git_patch_text": fw.Q(text)}, "re-formatting the patch read by ReadGitPatch gives %q, not the wrapped unified text", b2.String())
+						}
+					case "f5":
+						c.Known("F5", map[string]any{"unified_text": fw.Q(buf.String())}, "marker-like contents: ReadGitPatch reads an omitted count as a zero-length range")
+					default:
+						c.Fail(map[string]any{"git_patch_text": fw.Q(text)}, "ReadGitPatch: %s", cl)
+					}
+				}
+			}
+			n++
+		}
+	}
+	c.Add("marker_like_content_cases", int64(n))
+	c.Add("cases", int64(n))
 }
 
 // c14shifted: the same changes at large line numbers. A small diff is
@@ -1237,6 +1319,12 @@ func runC14(c *fw.Ctx) {
 		}
 	}
 	idx += cnt
+	if c.Begin(idx + 8000000 + c.Block) {
+		ok, pv, stack := fw.Try(func() { c14markers(c, c.Block, c.NBlocks) })
+		if !ok {
+			c.FailKind("panic", map[string]any{"phase": "marker-like contents"}, "panic: %v\n%s", pv, stack)
+		}
+	}
 	// random cases; a sample goes through GNU patch / GNU diff
 	nr := c.Pick(2500, 40000)
 	patchEvery := c.Pick(12, 12)
@@ -1283,15 +1371,16 @@ func runC14(c *fw.Ctx) {
 			c14git(c, r)
 		}
 		if k%40 == 7 {
-			pow := 1
+			pow64 := int64(1)
 			for i := 1 + (k/40)%18; i > 0; i-- {
-				pow *= 10
+				pow64 *= 10
 			}
+			pow := clipInt(pow64)
 			base := []int{pow, clipInt(1 << 31), clipInt(1 << 32), clipInt(1 << 53), clipInt(1 << 62), pow}[(k/40+c.Block)%6]
 			if k%80 == 7 && base > 1000000 {
 				base = []int{100, 1000, 10000, 100000, 1000000}[(k/80)%5] // files that are really built
 			}
-			c14shifted(c, r, max(0, base-12+r.IntN(14)))
+			c14shifted(c, r, max(0, min(base, math.MaxInt-64)-12+r.IntN(14)))
 		}
 	}
 }
